@@ -419,7 +419,7 @@ def topdown_unsat(prog):
                             found.append(v)
     e = None
     if not found:
-        e = "no return path for SATSolver::new == None recognised"
+        e = "?no return path for SATSolver::new == None recognised"
     else:
         for t in found:
             e = e or match(C("false_ptr"), t)
